@@ -203,6 +203,8 @@ class DualQuaternion:
             # negation of the dual part
             vp = left * DualQuaternion.Pure(v) * DualQuaternion(left.real.conj(), left.dual.conj() * -1)
             return vp.dual.v
+        else:
+            raise ValueError('bad operands to *')
 
     def matrix(self):
         """
